@@ -60,6 +60,7 @@ class RV0:
       self.mem[base + 4 * i] = w & M32
     self.src = list(src)
     self.src_used = 0
+    self.xr0 = 0          # the single register of the null accelerator
     self.out = []
     self.steps = 0
     self.stores = []
@@ -101,14 +102,21 @@ class RV0:
           raise Halt("spin")
     elif opc == 0b1110011 and f3 == 0b010:
       csr = w >> 20
-      if csr != MNGR2PROC: raise Halt("csrr of other csr")
-      if self.src_used >= len(self.src): raise Halt("src exhausted")
-      v = self.src[self.src_used]; self.src_used += 1
-      if rd: x[rd] = v & M32
+      if 0x7E0 <= csr <= 0x7FF:
+        # accelerator register read; the test harness attaches the null accelerator: ONE register behind all 32 numbers
+        if rd: x[rd] = self.xr0 & M32
+      else:
+        if csr != MNGR2PROC: raise Halt("csrr of other csr")
+        if self.src_used >= len(self.src): raise Halt("src exhausted")
+        v = self.src[self.src_used]; self.src_used += 1
+        if rd: x[rd] = v & M32
     elif opc == 0b1110011 and f3 == 0b001:
       csr = w >> 20
-      if csr != PROC2MNGR: raise Halt("csrw of other csr")
-      self.out.append(x[rs1])
+      if 0x7E0 <= csr <= 0x7FF:
+        self.xr0 = x[rs1]
+      else:
+        if csr != PROC2MNGR: raise Halt("csrw of other csr")
+        self.out.append(x[rs1])
     else:
       raise Halt("illegal instruction %08x at %x" % (w, self.pc))
     self.pc = npc
